@@ -199,17 +199,48 @@ impl<'r> Grammar<'r> {
                 self.t("<");
                 let ty = self.rng.pick(TYPES).to_string();
                 self.t(&ty);
-                if self.rng.chance(1, 3) {
+                let extra = *self.rng.pick(&[0usize, 0, 1, 1, 2]);
+                for _ in 0..extra {
                     self.t(",");
-                    let ty = self.rng.pick(TYPES).to_string();
-                    self.t(&ty);
+                    if self.rng.chance(1, 5) {
+                        // nested type arguments: TPair<A, B>
+                        self.t("TPair");
+                        self.t("<");
+                        let ty = self.rng.pick(TYPES).to_string();
+                        self.t(&ty);
+                        self.t(",");
+                        let ty = self.rng.pick(TYPES).to_string();
+                        self.t(&ty);
+                        self.t(">");
+                    } else {
+                        let ty = self.rng.pick(TYPES).to_string();
+                        self.t(&ty);
+                    }
                 }
                 self.t(">");
-                self.t(".");
-                self.t("Create");
-                if self.rng.chance(1, 2) {
-                    self.t("(");
-                    self.t(")");
+                match self.rng.below(4) {
+                    0 | 1 => {
+                        self.t(".");
+                        self.t("Create");
+                        if self.rng.chance(1, 2) {
+                            self.t("(");
+                            self.t(")");
+                        }
+                    }
+                    2 => {
+                        // generic routine call: Convert<A, B>(Value)
+                        self.t("(");
+                        self.primary(depth, lvl + 2);
+                        if self.rng.chance(1, 3) {
+                            self.t(",");
+                            self.primary(depth, lvl + 2);
+                        }
+                        self.t(")");
+                    }
+                    _ => {
+                        self.t("(");
+                        self.t(")");
+                    }
                 }
             }
             13 if self.allow_mls && lvl == 0 => {
@@ -2187,6 +2218,81 @@ pub fn directive_heavy(rng: &mut Rng) -> String {
         }
     }
     s.push_str("end;\n");
+    s
+}
+
+/// `dirsoup` family: short token sequences dense in conditional directives, compiler directives and comments,
+/// mostly balanced (`{$ifdef}` .. `{$else}` .. `{$endif}` nested up to depth 3), with code tokens, comments and line
+/// breaks at every position: a compiler directive directly between two conditional directives, a comment right after
+/// a directive, a conditional directive between a directive and its trailing comment, branches holding only
+/// directives or only comments, directives inside expressions and parameter lists.
+pub fn directive_soup(rng: &mut Rng) -> String {
+    const CODE: [&str; 22] = [
+        "x", "Foo", ";", ":=", "(", ")", ",", "1", "'s'", "begin", "end", "if", "then", "else", "var", "procedure", "A: Integer;", "x := 1;",
+        "Foo(1, 2);", "uses", "type", ".",
+    ];
+    const CDIR: [&str; 8] = ["{$define X}", "{$R+}", "{$mode delphi}", "(*$I a.inc*)", "{$undef Y}", "{$WARN OFF}", "{$region 'r'}", "{$H+}"];
+    const COMM: [&str; 5] = ["// c", "{c}", "(* c *)", "{ a\n b }", "/// d"];
+    fn sep(rng: &mut Rng, s: &mut String) {
+        match rng.range(0, 6) {
+            0 | 1 | 2 => s.push(' '),
+            3 | 4 => s.push('\n'),
+            _ => {}
+        }
+    }
+    fn item(rng: &mut Rng, s: &mut String, depth: usize, budget: &mut usize) {
+        if *budget == 0 {
+            return;
+        }
+        *budget -= 1;
+        match rng.range(0, 12) {
+            0 | 1 | 2 | 3 => s.push_str(rng.pick_str(&CODE)),
+            4 | 5 => s.push_str(rng.pick_str(&CDIR)),
+            6 | 7 => {
+                let c = rng.pick_str(&COMM);
+                s.push_str(c);
+                if c.starts_with("//") {
+                    s.push('\n');
+                }
+            }
+            8 | 9 | 10 if depth < 3 => {
+                s.push_str(rng.pick_str(&["{$ifdef A}", "{$ifndef B}", "{$if X}", "{$ifopt R+}"]));
+                let n = rng.range(0, 4);
+                for _ in 0..n {
+                    sep(rng, s);
+                    item(rng, s, depth + 1, budget);
+                }
+                let branches = rng.range(0, 3);
+                for _ in 0..branches {
+                    sep(rng, s);
+                    s.push_str(rng.pick_str(&["{$else}", "{$elseif Y}"]));
+                    let n = rng.range(0, 4);
+                    for _ in 0..n {
+                        sep(rng, s);
+                        item(rng, s, depth + 1, budget);
+                    }
+                }
+                sep(rng, s);
+                if !rng.chance(1, 12) {
+                    s.push_str(rng.pick_str(&["{$endif}", "{$endif}", "{$ifend}"]));
+                }
+            }
+            _ => s.push_str(rng.pick_str(&["{$endif}", "{$else}", "x", ";", "{$define Z}"])),
+        }
+    }
+    let mut s = String::new();
+    if rng.chance(1, 2) {
+        s.push_str(rng.pick_str(&["unit U;\ninterface\n", "begin\n", "procedure P;\nbegin\n", "package P;\n", "type T = class\n"]));
+    }
+    let mut budget = *rng.pick(&[4usize, 8, 16, 40]);
+    let n = rng.range(1, 10);
+    for _ in 0..n {
+        item(rng, &mut s, 0, &mut budget);
+        sep(rng, &mut s);
+    }
+    if rng.chance(1, 2) {
+        s.push_str(rng.pick_str(&["\nend.", "\nend;", "\n", ""]));
+    }
     s
 }
 
